@@ -37,10 +37,19 @@ for sid in ids:
     json.dump(meta, open(metap, 'w'), indent=1)
     rows.append((sid, res, fps[:1]))
     print(sid, {k: v['verdict'] for k, v in res.items()}, flush=True)
+# the table is rebuilt from the stored meta.json of every seeded change (so a partial run refreshes only its own rows)
+allids = sorted(d for d in os.listdir(os.path.join(ROOT, 'seeded')) if os.path.isdir(os.path.join(ROOT, 'seeded', d)))
 with open(os.path.join(ROOT, 'seeded', 'RESULTS-%s.md' % tier), 'w') as f:
-    f.write('| seeded change | target check (%s tier) | other checks | first fingerprint |\n|---|---|---|---|\n' % tier)
-    for sid, res, fp in rows:
+    f.write('| seeded change | target check (%s tier) | other checks | first fingerprint | run |\n|---|---|---|---|---|\n' % tier)
+    for sid in allids:
+        try:
+            meta = json.load(open(os.path.join(ROOT, 'seeded', sid, 'meta.json')))
+            run = meta['runs'][tier]
+        except Exception:
+            f.write('| %s | not run yet | | | |\n' % sid)
+            continue
+        res, fp = run['results'], run['first_fingerprints'][:1]
         prop = sid.split('-')[0]
         t = res.get(prop, {}).get('verdict', '?')
         others = ', '.join('%s: %s' % (k, v['verdict']) for k, v in sorted(res.items()) if k != prop)
-        f.write('| %s | %s | %s | `%s` |\n' % (sid, t, others, (fp[0] if fp else '')[:110]))
+        f.write('| %s | %s | %s | `%s` | %s |\n' % (sid, t, others, (fp[0] if fp else '')[:110], run.get('when', '')))
